@@ -283,7 +283,13 @@ class Engine(HeapMixin, ExprMixin, AccessMixin, CallMixin, StmtMixin):
     self.entry_state_pc = list(st.pc)
     self.entry_params = dict(st.entry_args)
     modkeys = self.keys_of_patterns(spec.modifies)
-    outs = list(self.exec_block(fnode.body, st, cx))
+    if spec.ghost_fn:
+      self.ghost_depth += 1     # lemma functions may use prove()/assume() as proof steps
+    try:
+      outs = list(self.exec_block(fnode.body, st, cx))
+    finally:
+      if spec.ghost_fn:
+        self.ghost_depth -= 1
     res.paths = len(outs)
     for s1, out in outs:
       kind, val = out
